@@ -279,6 +279,29 @@ def run(ctx: Ctx) -> int:
                         ok = True
                     if isinstance(ce, ast.Call) and call_leaf(ce) == "relative_path_context" and root_name(ce.func) == pname:
                         ok = True
+                # the ORIGINAL TEXT of the value (a copy taken before the load) names the file relative to the
+                # directory we were in when it was given: it must not be interpreted inside the directory of the
+                # file it names (sub/files.lst would be looked up as sub/sub/files.lst)
+                a0 = c.args[0] if c.args else None
+                prod_in = None
+                if isinstance(pstmt, ast.Assign) and isinstance(pstmt.value, ast.Call) and pstmt.value.args and isinstance(pstmt.value.args[0], ast.Name):
+                    prod_in = pstmt.value.args[0].id
+                is_orig = (
+                    isinstance(a0, ast.Name)
+                    and prod_in is not None
+                    and a0.id != prod_in
+                    and any(isinstance(d, ast.Assign) and any(isinstance(t, ast.Name) and t.id == a0.id for t in d.targets) and isinstance(d.value, ast.Name) and d.value.id == prod_in and gf.dominates(gf.cn(d), pn) for d in walk_local(fn))
+                    and not any(isinstance(d, ast.Assign) and d is not pstmt and any(isinstance(t, ast.Name) and t.id == a0.id for x in [d] for t in (x.targets[0].elts if isinstance(x.targets[0], ast.Tuple) else x.targets)) and not (isinstance(d.value, ast.Name) and d.value.id == prod_in) for d in walk_local(fn))
+                )
+                if is_orig:
+                    ctx.oblige(
+                        "C19.c",
+                        not ok,
+                        c,
+                        f"the original text `{a0.id}` is re-interpreted in the directory it was given in (not inside change_to_path_dir({pname}))" if not ok else f"{leaf}({a0.id}, ...) re-interprets the ORIGINAL TEXT of the value inside change_to_path_dir({pname}) - the directory of the very file that text names: a relative `sub/files.lst` is looked up as `sub/sub/files.lst`, so a relative plain-text list file is rejected while the same file given by absolute path is accepted",
+                        fn=fn,
+                    )
+                    continue
                 ctx.oblige("C19.c", ok, c, f"content loaded from `{pname}` is interpreted inside change_to_path_dir({pname})" if ok else f"{leaf}(...) interprets a config loaded from `{pname}` outside `with change_to_path_dir({pname})`: relative paths inside it resolve against the process cwd", fn=fn)
     ctx.floor("C19.c", n_sites, 7)
     # relative_path_context is change_to_path_dir(self)
